@@ -1305,6 +1305,56 @@ impl HuffmanOxide {
     }
 }
 
+/// Verification hooks (only with `--cfg miniz_oxide_verif`): direct access to the Huffman code
+/// construction, which is otherwise reachable only through whole blocks of input.
+#[cfg(miniz_oxide_verif)]
+pub mod verif_huffman {
+    use super::*;
+
+    /// `optimize_table` on the given symbol counts with the given code size limit:
+    /// returns (code sizes, codes) of the first `counts.len()` symbols.
+    pub fn optimize_table(
+        counts: &[u16],
+        code_size_limit: usize,
+    ) -> ([u8; MAX_HUFF_SYMBOLS], [u16; MAX_HUFF_SYMBOLS]) {
+        let mut h = HuffmanOxide::default();
+        h.count[0][..counts.len()].copy_from_slice(counts);
+        h.optimize_table(0, counts.len(), code_size_limit, false);
+        (h.code_sizes[0], h.codes[0])
+    }
+
+    /// One final dynamic block built from the given literal/length and distance counts: block
+    /// header as written by `start_dynamic_block`, then the code of every literal with a
+    /// non-zero count in ascending order, then the end-of-block code, padded to a byte.
+    /// Returns (bytes written, literal/length code sizes, distance code sizes).
+    pub fn dynamic_block(
+        lit_counts: &[u16],
+        dist_counts: &[u16],
+        out: &mut [u8],
+    ) -> Option<(usize, [u8; MAX_HUFF_SYMBOLS], [u8; MAX_HUFF_SYMBOLS])> {
+        let mut h = HuffmanOxide::default();
+        h.count[0][..lit_counts.len()].copy_from_slice(lit_counts);
+        h.count[1][..dist_counts.len()].copy_from_slice(dist_counts);
+        let mut ob = OutputBufferOxide {
+            inner: out,
+            inner_pos: 0,
+            local: false,
+            bit_buffer: 0,
+            bits_in: 0,
+        };
+        ob.put_bits(1, 1);
+        h.start_dynamic_block(&mut ob).ok()?;
+        for lit in 0..256 {
+            if lit < lit_counts.len() && lit_counts[lit] != 0 {
+                ob.put_bits(u32::from(h.codes[0][lit]), u32::from(h.code_sizes[0][lit]));
+            }
+        }
+        ob.put_bits(u32::from(h.codes[0][256]), u32::from(h.code_sizes[0][256]));
+        ob.pad_to_bytes();
+        Some((ob.inner_pos, h.code_sizes[0], h.code_sizes[1]))
+    }
+}
+
 #[derive(Clone)]
 pub(crate) struct DictOxide {
     /// The maximum number of checks in the hash chain, for the initial,
